@@ -74,7 +74,7 @@ def count_specs(tier: str):
 
 
 def specs(tier: str):
-    out = count_specs(tier) + [sp for sp in families.extra_specs("zero", tier) if sp.family.startswith("newline(none)") or sp.family.startswith("empty-ranges")] + families.metachar_specs("zero", tier) + families.recursive_specs("zero", tier) + families.ctx3_specs("zero", tier, families.T_CORE, ("none",), "abA", 3 if tier == "quick" else 4)
+    out = count_specs(tier) + [sp for sp in families.extra_specs("zero", tier) if sp.family.startswith(("newline(none)", "empty-ranges", "postfix-chains"))] + families.metachar_specs("zero", tier) + families.recursive_specs("zero", tier) + families.ctx3_specs("zero", tier, families.T_CORE, ("none",), "abA", 3 if tier == "quick" else 4)
     for n, exact, L, silent in BOUNDS[tier]:
         ins = families.inputs(families.SIGMA_CORE, L)
         for body in families.core_exprs(n, exact=exact):
